@@ -185,7 +185,17 @@ class Op(metaclass=OpMeta):
                     if kwargs:
                         raise NotImplementedError("tracing keyword-only op arguments")
                     raw_args = args
-                trace.setdefault(id(result), (result, self, raw_args))
+                entry = (result, self, raw_args)
+                prev = trace.setdefault(id(result), entry)
+                if prev is not entry and (
+                    prev[1] is not self
+                    or len(prev[2]) != len(raw_args)
+                    or any(a is not b for a, b in zip(prev[2], raw_args))
+                ):
+                    # e.g. numpy returns the np.True_/np.False_ singletons
+                    raise NotImplementedError(
+                        "two traced ops returned the same object; cannot trace by identity"
+                    )
             finally:
                 _TRACE = trace
 
